@@ -111,3 +111,38 @@ Example C08_multiscale_example :
   ms_forward Nat.add 0 1 ss [1; 2; 3] = ([11; 12; 113], 0) /\
   fst (ms_inverse Nat.add 0 1 ss [11; 12; 113]) = [1; 2; 3].
 Proof. vm_compute. split; reflexivity. Qed.
+
+(* ---- the wrappers as regenerated from nflows/transforms/base.py ARE the model's combinators ---- *)
+From NF Require Import Gen.Wrappers.
+
+Lemma cascade_gen_is_cascade : forall (X L : Type) (ladd : L -> L -> L) (lzero : L) (fs : list (X -> X * L)) (x : X),
+  cascade_gen ladd lzero x fs = cascade ladd lzero fs x.
+Proof.
+  intros X L ladd lzero fs x. unfold cascade_gen, cascade.
+  assert (E : forall (acc : X * L), fold_left (fun st_ func => let '(outputs, total_logabsdet) := st_ in
+              let '(outputs0, logabsdet) := func outputs in (outputs0, ladd total_logabsdet logabsdet)) fs acc
+            = fold_left (step_acc ladd) fs acc).
+  { induction fs as [|f fs IH]; intros acc; [reflexivity|]. cbn [fold_left]. rewrite IH. f_equal.
+    unfold step_acc. destruct acc as [o t]. cbn [fst snd]. destruct (f o); reflexivity. }
+  rewrite E. destruct (fold_left (step_acc ladd) fs (x, lzero)); reflexivity.
+Qed.
+
+Theorem C08_generated_composite_is_the_model : forall (X L : Type) (ladd : L -> L -> L) (lzero : L) (ts : list (tr X L)) (x : X),
+  composite_forward ladd lzero (composite_init ts) x = fwd (comp ladd lzero ts) x /\
+  composite_inverse ladd lzero (composite_init ts) x = inv (comp ladd lzero ts) x.
+Proof.
+  intros. unfold composite_forward, composite_inverse, composite_init. rewrite !cascade_gen_is_cascade. split; reflexivity.
+Qed.
+Print Assumptions C08_generated_composite_is_the_model.
+
+(* the inverse wrapper keeps exactly the transform it was given (no unwrapping, no re-wrapping) and swaps directions;
+   hence wrapping twice gives back the original transform's behaviour *)
+Theorem C08_generated_inverse_wrapper_is_the_model : forall (X L : Type) (t : tr X L) (x : X),
+  inverse_forward (inverse_init t) x = fwd (inverse_of t) x /\ inverse_inverse (inverse_init t) x = inv (inverse_of t) x.
+Proof. intros. split; reflexivity. Qed.
+Print Assumptions C08_generated_inverse_wrapper_is_the_model.
+
+Theorem C08_double_inverse_wrapper_is_identity : forall (X L : Type) (t : tr X L) (x : X),
+  fwd (inverse_of (inverse_of t)) x = fwd t x /\ inv (inverse_of (inverse_of t)) x = inv t x.
+Proof. intros. split; reflexivity. Qed.
+Print Assumptions C08_double_inverse_wrapper_is_identity.
